@@ -132,6 +132,14 @@ def check(run):
                         "will": {"t": ["w", "x"], "p": "will-%d" % i, "q": 0, "r": False}})
             if i % 3 == 2:
                 ops.append({"op": "sub", "c": 1 + i, "id": 1, "fs": [{"f": ["w", "#"], "q": 0}]})
+        # legal CONNECT packets far larger than 64 KiB (a will of up to 65535 bytes next to the credentials): admitted or refused
+        # exactly like small ones
+        if x["table"]:
+            e0 = x["table"][0]
+            ops.append({"op": "connect", "c": 40, "n": 1, "client": "big-ok", "user": e0["u"], "pass": e0["p"], "ka": 600,
+                        "will": {"t": ["w", "big"], "p": "bigwill-ok", "q": 0, "r": False, "size": 65535}})
+            ops.append({"op": "connect", "c": 41, "n": 1, "client": "big-bad", "user": e0["u"], "pass": "wrong", "ka": 600,
+                        "will": {"t": ["w", "big"], "p": "bigwill-bad", "q": 0, "r": False, "size": 65000}})
         ops.append({"op": "quiesce"})
         bscns.append({"nodes": [1], "auth": [x["table"][j] for j in x["order"]], "ops": ops})
     btpath, crashes = brokerlib.execute(run, bscns, "c16b", shards=12)
